@@ -36,6 +36,13 @@ def cases(draw):
             return [lift(x) for x in t] if isinstance(t, list) else t + 2 ** 53
         for c in desc["constraints"]:
             c["table"] = lift(c["table"])
+    elif draw(st.integers(0, 5)) == 0 and all(c["kind"] == "matrix" for c in desc["constraints"]):
+        # costs on a 0.1 grid: decimal fractions whose sums differ in the last bits (0.1 + 0.2 vs 0.3)
+
+        def tenth(t):
+            return [tenth(x) for x in t] if isinstance(t, list) else abs(t) / 10
+        for c in desc["constraints"]:
+            c["table"] = tenth(c["table"])
     return {"dcop": desc, "schedule": draw(gen.schedules(40)), "algo_seed": draw(st.integers(0, 100))}
 
 
